@@ -359,6 +359,7 @@ func (e *Engine) Load(st *State, p PtrV, typ types.Type, where string) Value {
 			continue
 		}
 		e.ensureHeap(st, alt.Obj)
+		e.raceRecord(alt, typ, false, where)
 		v := e.loadAlt(st, alt, typ, where)
 		if res == nil {
 			res, resG = v, alt.G
@@ -519,6 +520,7 @@ func (e *Engine) Store(st *State, p PtrV, v Value, typ types.Type, where string)
 			continue
 		}
 		e.ensureHeap(st, alt.Obj)
+		e.raceRecord(alt, typ, true, where)
 		e.storeAlt(st, alt, v, typ, where)
 	}
 }
